@@ -22,6 +22,9 @@ class DetectVarNames( ast.NodeVisitor ):
     self.locals  = { *upblk.__code__.co_varnames }
     # Local names bound to a part of the component inside the block:
     #   for m in s.subs: ... m.out ...     (m stands for s.subs[*])
+    #   x = s.w; x @= ...                  (x stands for s.w)
+    # A name bound to different parts on different paths (if / else, loop
+    # body) has several alternatives.
     self.aliases = {}
     # Variables bound by a generator expression, a lambda or a nested
     # function inside the block are locals of that nested scope
@@ -34,9 +37,9 @@ class DetectVarNames( ast.NodeVisitor ):
           Q.append( const )
 
     if sys.version_info < (3,8,10000):
-      self._get_full_name = self._get_full_name_up_to_py38
+      self._get_full_name_raw = self._get_full_name_up_to_py38
     else:
-      self._get_full_name = self._get_full_name_starting_py39
+      self._get_full_name_raw = self._get_full_name_starting_py39
 
   # Helper function to get the full name containing "s"
 
@@ -141,7 +144,7 @@ class DetectVarNames( ast.NodeVisitor ):
 
     obj_name = obj_name[::-1]
     nodelist = nodelist[::-1]
-    return self._resolve_alias( obj_name, nodelist )
+    return obj_name, nodelist
 
   def _get_full_name_starting_py39( self, input_node ):
     node = input_node
@@ -243,19 +246,26 @@ class DetectVarNames( ast.NodeVisitor ):
 
     obj_name = obj_name[::-1]
     nodelist = nodelist[::-1]
-    return self._resolve_alias( obj_name, nodelist )
-
-  def _resolve_alias( self, obj_name, nodelist ):
-    """ m.out with m bound by 'for m in s.subs' is s.subs[*].out """
-    root, root_idx = obj_name[0]
-    if root not in self.aliases:
-      return obj_name, nodelist
-    alias = self.aliases[ root ]
-    last_name, last_idx = alias[-1]
-    obj_name = alias[:-1] + [ (last_name, last_idx + root_idx) ] + obj_name[1:]
-    # the node list only provides line numbers for error messages
-    nodelist = [ nodelist[0] ] * ( 2*len(alias) ) + nodelist
     return obj_name, nodelist
+
+  def _get_full_names( self, node ):
+    """ All the names an access stands for: m.out with m bound by
+    'for m in s.subs' is s.subs[*].out; a local name bound to different
+    parts of the component on different paths gives one name per part. """
+    obj_name, nodelist = self._get_full_name_raw( node )
+    if not obj_name or obj_name[0][0] not in self.aliases:
+      return [ (obj_name, nodelist) ]
+    root, root_idx = obj_name[0]
+    ret = []
+    for alias in self.aliases[ root ]:
+      last_name, last_idx = alias[-1]
+      name = alias[:-1] + [ (last_name, last_idx + root_idx) ] + obj_name[1:]
+      # the node list only provides line numbers for error messages
+      ret.append( ( name, [ nodelist[0] ] * ( 2*len(alias) ) + nodelist ) )
+    return ret
+
+  def _get_full_name( self, node ):
+    return self._get_full_names( node )[0]
 
 class DetectReadsWritesCalls( DetectVarNames ):
 
@@ -267,19 +277,90 @@ class DetectReadsWritesCalls( DetectVarNames ):
     self.current_op = None
     self.visit( node )
 
-  def visit_Assign( self, node ):
-    for x in node.targets:
+  def _bindings( self, target, value, element ):
+    """ The local names that 'target = value' (or, with element set,
+    'for target in value') binds to parts of the component:
+    { name : [ alternatives ] } """
+    if isinstance( value, ast.Call ) and isinstance( value.func, ast.Name ) and not value.keywords:
+      func, args = value.func.id, value.args
+      if element and func == 'enumerate' and len( args ) == 1 and \
+         isinstance( target, ast.Tuple ) and len( target.elts ) == 2:
+        return self._bindings( target.elts[1], args[0], True )
+      if element and func == 'reversed' and len( args ) == 1:
+        return self._bindings( target, args[0], True )
+      if element and func == 'zip' and isinstance( target, ast.Tuple ) and len( target.elts ) == len( args ):
+        ret = {}
+        for t, v in zip( target.elts, args ):
+          ret.update( self._bindings( t, v, True ) )
+        return ret
+      return {}
+
+    if isinstance( target, ast.Tuple ) and isinstance( value, ast.Tuple ) and not element and \
+       len( target.elts ) == len( value.elts ): # x, y = s.a, s.b
+      ret = {}
+      for t, v in zip( target.elts, value.elts ):
+        ret.update( self._bindings( t, v, False ) )
+      return ret
+
+    if isinstance( target, ast.Name ) and isinstance( value, (ast.Attribute, ast.Subscript, ast.Name) ):
+      alts = []
+      for obj_name, _ in self._get_full_names( value ):
+        if obj_name and obj_name[0][0] == "s":
+          if element:
+            obj_name = obj_name[:-1] + [ ( obj_name[-1][0], obj_name[-1][1] + [ "*" ] ) ]
+          alts.append( obj_name )
+      if alts:
+        return { target.id: alts }
+    return {}
+
+  def _rebind( self, target, binds ):
+    # the local names in target are bound to something else
+    for x in ast.walk( target ):
       if isinstance( x, ast.Name ):
-        self.aliases.pop( x.id, None ) # the local name is bound to something else
+        self.aliases.pop( x.id, None )
+    self.aliases.update( binds )
+
+  def _merge_aliases( self, a, b ):
+    # the alternatives of two paths
+    ret = { k: list(v) for k, v in a.items() }
+    for k, v in b.items():
+      ret[k] = ret.get( k, [] ) + [ x for x in v if x not in ret.get( k, [] ) ]
+    return ret
+
+  def visit_Assign( self, node ):
+    self.visit( node.value )
+    for x in node.targets:
+      if isinstance( x, (ast.Name, ast.Tuple, ast.List) ):
+        self._rebind( x, self._bindings( x, node.value, False ) )
+        for y in ast.walk( x ): # x[i], s.w = ...
+          if isinstance( y, (ast.Attribute, ast.Subscript) ):
+            self.visit( y )
       else:
         self.visit( x )
-    self.visit( node.value )
+
+  def visit_If( self, node ):
+    self.visit( node.test )
+    before = self.aliases
+    self.aliases = { k: list(v) for k, v in before.items() }
+    for stmt in node.body:
+      self.visit( stmt )
+    after_body = self.aliases
+    self.aliases = { k: list(v) for k, v in before.items() }
+    for stmt in node.orelse:
+      self.visit( stmt )
+    self.aliases = self._merge_aliases( after_body, self.aliases )
+
+  def visit_While( self, node ):
+    self.visit( node.test )
+    before = { k: list(v) for k, v in self.aliases.items() }
+    for stmt in node.body + node.orelse:
+      self.visit( stmt )
+    self.aliases = self._merge_aliases( before, self.aliases )
 
   def visit_Name( self, node ):
     # A local name that stands for a part of the component
-    if node.id in self.aliases:
-      alias = self.aliases[ node.id ]
-      pair  = ( alias, [ node ] * ( 2*len(alias) + 2 ), self.current_op )
+    for alias in self.aliases.get( node.id, () ):
+      pair = ( alias, [ node ] * ( 2*len(alias) + 2 ), self.current_op )
       if   isinstance( node.ctx, ast.Load ):
         self.read.append( pair )
       elif isinstance( node.ctx, ast.Store ):
@@ -292,47 +373,50 @@ class DetectReadsWritesCalls( DetectVarNames ):
     self.visit( node.value  )
 
   def visit_Attribute( self, node ): # s.a.b
-    obj_name, nodelist = self._get_full_name( node )
-    if not obj_name:
+    names = self._get_full_names( node )
+    if not names[0][0]:
       # Field of a call result or of an expression: the signals are inside
       self.generic_visit( node )
       return
 
-    pair = (obj_name, nodelist, self.current_op)
+    for obj_name, nodelist in names:
+      pair = (obj_name, nodelist, self.current_op)
 
-    if   isinstance( node.ctx, ast.Load ):
-      self.read.append( pair )
-    elif isinstance( node.ctx, ast.Store ):
-      self.write.append( pair )
-    else:
-      raise TypeError( f"Wrong ast node context {type( node.ctx )}" )
+      if   isinstance( node.ctx, ast.Load ):
+        self.read.append( pair )
+      elif isinstance( node.ctx, ast.Store ):
+        self.write.append( pair )
+      else:
+        raise TypeError( f"Wrong ast node context {type( node.ctx )}" )
 
   def visit_Subscript( self, node ): # s.a.b[0:3] or s.a.b[0]
-    obj_name, nodelist = self._get_full_name( node )
-    if not obj_name:
+    names = self._get_full_names( node )
+    if not names[0][0]:
       # Slice of a call result or of an expression: the signals are inside
       self.generic_visit( node )
       return
 
-    pair = (obj_name, nodelist, self.current_op)
+    for obj_name, nodelist in names:
+      pair = (obj_name, nodelist, self.current_op)
 
-    if   isinstance( node.ctx, ast.Load ):
-      self.read.append( pair )
-    elif isinstance( node.ctx, ast.Store ):
-      self.write.append( pair )
-    else:
-      raise TypeError( f"Wrong ast node context {type( node.ctx )}" )
+      if   isinstance( node.ctx, ast.Load ):
+        self.read.append( pair )
+      elif isinstance( node.ctx, ast.Store ):
+        self.write.append( pair )
+      else:
+        raise TypeError( f"Wrong ast node context {type( node.ctx )}" )
 
     self.visit( node.slice )
 
   def visit_Call( self, node ):
-    obj_name, nodelist = self._get_full_name( node.func )
-    if not obj_name:
+    names = self._get_full_names( node.func )
+    if not names[0][0]:
       # Method of a call result, e.g. concat( s.a, s.b ).uint()
       self.generic_visit( node )
       return
 
-    self.calls.append( (obj_name, nodelist, None) )
+    for obj_name, nodelist in names:
+      self.calls.append( (obj_name, nodelist, None) )
 
     for x in node.args:
       self.visit( x )
@@ -340,35 +424,26 @@ class DetectReadsWritesCalls( DetectVarNames ):
       self.visit( x.value )
 
   def visit_For( self, node ):
-    # for m in s.subs / for i, m in enumerate( s.subs ): inside the loop m
-    # stands for the elements of s.subs
-    target, it = node.target, node.iter
-    if isinstance( it, ast.Call ) and isinstance( it.func, ast.Name ) and it.func.id == 'enumerate' and \
-       len( it.args ) == 1 and isinstance( target, ast.Tuple ) and len( target.elts ) == 2:
-      target, it = target.elts[1], it.args[0]
+    # for m in s.subs / for i, m in enumerate( s.subs ) / for a, b in
+    # zip( s.xs, s.ys ): inside the loop m stands for the elements of s.subs
+    binds = self._bindings( node.target, node.iter, True )
+    self.visit( node.iter )
 
-    alias = None
-    if isinstance( target, ast.Name ) and isinstance( it, (ast.Attribute, ast.Subscript) ):
-      obj_name, _ = self._get_full_name( it )
-      if obj_name and obj_name[0][0] == "s":
-        alias = obj_name[:-1] + [ ( obj_name[-1][0], obj_name[-1][1] + [ "*" ] ) ]
-
-    for x in ast.walk( node.target ):
-      if isinstance( x, ast.Name ):
-        self.aliases.pop( x.id, None )
+    before = { k: list(v) for k, v in self.aliases.items() }
+    self._rebind( node.target, {} )
 
     self.current_op = 'for'
     self.visit( node.target )
     self.current_op = None
 
-    if alias is not None:
-      self.aliases[ target.id ] = alias
+    self.aliases.update( binds )
 
-    self.visit( node.iter )
     for stmt in node.body:
       self.visit( stmt )
     for stmt in node.orelse:
       self.visit( stmt )
+    # the body may not have run
+    self.aliases = self._merge_aliases( before, self.aliases )
 
 class DetectMethodCalls( DetectVarNames ):
 
